@@ -484,7 +484,7 @@ def prepare_units(mod, tier):
     us = mod.units(tier)
     for u in us:
         if tier == "quick" and not getattr(u, "keep_budget", False):
-            u.budget_s = min(u.budget_s, 240)
+            u.budget_s = min(u.budget_s, 900)
             u.query_timeout_ms = min(u.query_timeout_ms, 30000)
     return us
 
